@@ -94,6 +94,16 @@ CLAIMED.update({
   note="Repaired: DECRBY of the minimum integer, GETRANGE with a negative end before the value, SETRANGE offset crashes. Not under contract: INCRBYFLOAT (floating point is outside the verifier's theories), LCS, APPEND/STRLEN/GETDEL/GETEX replies, expiry arithmetic of EX/PX/EXAT/PXAT (see C07), the grammar-driven argument parser (type assertions on its output are the UNDECIDED safety obligations listed under C13). strconv.ParseInt is an uninterpreted parse function.",
   design="DESIGN.md section 6 C02"),
 })
+CLAIMED.update({
+ "C11": dict(
+  text="Deductive proof of the sequential core of blocking pops on the real wait table and worker: a new waiter is linked at the tail of the key's queue and of its own key list (joinWaitList: first come, first in the queue; queue and signal shape invariants re-established); leaving a queue joins the neighbours, so the others keep their order and the head's successor becomes the head (unlink, all alias cases of the two intrusive lists); a woken or cancelled client leaves every queue it is in (unlinkWakeSignal, loop invariant over the global shape invariants); a push of n elements wakes at most n waiters, each taken from the head of the key's queue at that moment and removed from all queues before its token is sent (unblock: assertions before the unlink and before the channel send, ghost wake counter); enterWait registers the client as the last of the key's queue; and the blocking worker tries, registers, tries again and only then waits, and is queued whenever it waits (ghost registration bit cleared by the wake signal). The last obligation failed on the pinned tree (a woken client that lost the race waited again unqueued: lost wake-up, demonstrated on the real code) and was repaired.",
+  note="Not decided (outside contract-based verification, no thread support): interleavings between pusher, blocked client and other consumers, fairness across keys, exactly-once delivery under concurrency (it rests on the store lock discipline of C08 plus these sequential contracts), channel semantics beyond 'one send per wake'. The whole-queue order is proved link-wise (neighbour links), not as a ghost sequence as for C03.",
+  design="DESIGN.md section 6 C11"),
+ "C12": dict(
+  text="Deductive proof of the sequential parts of ending a blocked command on the real code: clientState.unblock (atomics modelled as sequentially consistent accesses) reports 'was blocked' exactly when the capture word was CS_CAPTURED, posts to the mailbox at most once and only to a captured client, marks the unblock pending and restores the capture word; CLIENT UNBLOCK replies 0 for an unknown id and 1 exactly when that client was captured (it replied 1 for every existing client: repaired); the blocking worker never registers or waits when it runs under MULTI/EXEC (one attempt, reply as is) and returns at once when the first attempt produced a reply.",
+  note="Not decided: timing ('no earlier than t, promptly after t'), the three-way select between mailbox, timer and wake signal, the spin/backoff capture protocol under real interleavings, detection of a closed connection while blocked (the socket is only read between commands) - these are scheduling/liveness properties outside this technique. Negative timeouts are not rejected by the handlers (they time out immediately) - noted, not covered by a contract.",
+  design="DESIGN.md section 6 C12"),
+})
 NOT_BUILT = {}
 ALL = ["C%02d" % i for i in range(1, 21)]
 
